@@ -237,7 +237,7 @@ def analyse(src: Source) -> List[Report]:
     for f, cls in classes:
         ci = next((c for c in prog.classes_in(f) if c.name == cls.name), None)
         # canonical forms: private / static helpers of the class hierarchy inlined, locals propagated
-        methods = {m.name: (canon(prog, ci, m) if ci is not None else m) for m in cls.body if isinstance(m, ast.FunctionDef)}
+        methods = {m.name: (canon(prog, ci, m, module_functions=True) if ci is not None else m) for m in cls.body if isinstance(m, ast.FunctionDef)}
         if ci is not None:
             # the vector methods may be inherited (written once in the base class, dispatching to the entry methods of `cls`)
             for name, (owner, m) in prog.all_methods(ci).items():
@@ -270,7 +270,8 @@ def analyse(src: Source) -> List[Report]:
             try:
                 results = interp2.run()
             except Undecided as u:
-                rep.ob("R15.1-range", None, loc, mname, str(u))
+                for r_ in (("R15.2-next-image",) if mname == "next_image" else ("R15.1-range", "R15.2-congruence")):
+                    rep.ob(r_, None, loc, mname, f"idiom not recognised: {u}")
                 continue
             for bad in interp2.wrong_component:
                 rep.ob("R15.3-index", False, Loc(f, getattr(bad, "lineno", m.lineno), f"{cls.name}.{mname}"), bad,
@@ -285,6 +286,8 @@ def analyse(src: Source) -> List[Report]:
                 descr.append(val.describe())
                 if mname == "next_image":
                     ok = val.known and val.cx == 1 and val.cl == 1 and not val.mod
+                    if not val.known and val.lo is None and val.hi is None:
+                        ok = None      # nothing is known about the value (a symbol or routine the interpreter does not follow): undecided
                     rep.ob("R15.2-next-image", ok, rloc, cons,
                            f"next_image must return position + L exactly; abstract result: {val.describe()}")
                     continue
@@ -298,7 +301,7 @@ def analyse(src: Source) -> List[Report]:
                        f"result must be congruent to the input modulo L; abstract result: {val.describe()}")
             summaries[cls.name][mname] = " | ".join(sorted(set(descr)))
         # vector methods
-        vector_ok: Dict[str, bool] = {}
+        vector_ok: Dict[str, Optional[bool]] = {}
         for vname, ename in (("correct_position", "correct_position_entry"),
                              ("correct_separation", "correct_separation_entry")):
             m = methods.get(vname)
@@ -308,14 +311,14 @@ def analyse(src: Source) -> List[Report]:
                 continue
             ok, why = _check_vector_method(m, cls.name, resolve_symbol, ENTRY_SPECS[ename], ENTRY_SPECS)
             rep.ob("R15.3-map", ok, loc, vname, why)
-            vector_ok[vname] = bool(ok)
+            vector_ok[vname] = ok
             summaries[cls.name][vname] = f"componentwise within spec of {ename}" if ok else "?"
         m = methods.get("separation_vector")
         loc = Loc(f, m.lineno if m else cls.lineno, f"{cls.name}.separation_vector")
         if m is None:
             rep.ob("R15.3-separation", None, loc, "separation_vector", "method missing")
         else:
-            ok, why = _check_separation_vector(m, cls.name, resolve_symbol, ENTRY_SPECS, vector_ok.get("correct_separation", False))
+            ok, why = _check_separation_vector(m, cls.name, resolve_symbol, ENTRY_SPECS, vector_ok.get("correct_separation"))
             rep.ob("R15.3-separation", ok, loc, "separation_vector", why)
             summaries[cls.name]["separation_vector"] = "target - reference, componentwise within the separation spec" if ok else "?"
     rep.expect_min("R15.1-range", 4)
@@ -476,6 +479,8 @@ def _check_separation_vector(m: ast.FunctionDef, clsname: str, resolve_symbol, e
         if isinstance(st, ast.Expr) and isinstance(st.value, ast.Call) and isinstance(st.value.func, ast.Attribute) \
                 and st.value.func.attr == "correct_separation" and isinstance(st.value.func.value, ast.Name) \
                 and st.value.func.value.id in (clsname, "self", "cls") and len(st.value.args) == 1 and norm(st.value.args[0]) == sep:
+            if vector_ok is None:
+                return None, "relies on correct_separation, which could not be decided"
             if not vector_ok:
                 return False, "relies on correct_separation, which is itself not a valid componentwise correction"
             stmts.append(ast.parse(f"__v[{idx}] = {clsname}.correct_separation_entry(__v[{idx}], {idx})").body[0])
